@@ -3,15 +3,14 @@
    (decimal integers of any size), runs the extracted Coq model <component>_run on (cfg, ops) and prints
      idx nops { nobs obs.. }*
    with the model's observables. All decoding of ops happens inside the Coq model. *)
-open Model
 
-let rec pos_of_string_bits (digits : int list) : positive option =
+let rec pos_of_string_bits (digits : int list) : Model.positive option =
   (* digits: little-endian binary digits *)
   match digits with
   | [] -> None
-  | [1] -> Some XH
-  | 0 :: r -> (match pos_of_string_bits r with Some p -> Some (XO p) | None -> None)
-  | 1 :: r -> (match pos_of_string_bits r with Some p -> Some (XI p) | None -> Some XH)
+  | [1] -> Some Model.XH
+  | 0 :: r -> (match pos_of_string_bits r with Some p -> Some (Model.XO p) | None -> None)
+  | 1 :: r -> (match pos_of_string_bits r with Some p -> Some (Model.XI p) | None -> Some Model.XH)
   | _ -> None
 
 (* decimal string -> little-endian bits, by repeated division by 2 on the digit array *)
@@ -34,24 +33,24 @@ let rec strip_high = function
   | [] -> []
   | l -> (match List.rev l with 0 :: r -> strip_high (List.rev r) | _ -> l)
 
-let z_of_string (s : string) : z =
+let z_of_string (s : string) : Model.z =
   let neg = String.length s > 0 && s.[0] = '-' in
   let body = if neg then String.sub s 1 (String.length s - 1) else s in
   if String.length body < 18 then begin
     (* fast path *)
     let n = int_of_string body in
-    if n = 0 then Z0 else
-    let rec pos n = if n = 1 then XH else if n land 1 = 0 then XO (pos (n lsr 1)) else XI (pos (n lsr 1)) in
-    if neg then Zneg (pos n) else Zpos (pos n)
+    if n = 0 then Model.Z0 else
+    let rec pos n = if n = 1 then Model.XH else if n land 1 = 0 then Model.XO (pos (n lsr 1)) else Model.XI (pos (n lsr 1)) in
+    if neg then Model.Zneg (pos n) else Model.Zpos (pos n)
   end else
   match pos_of_string_bits (strip_high (bits_of_decimal body)) with
-  | None -> Z0
-  | Some p -> if neg then Zneg p else Zpos p
+  | None -> Model.Z0
+  | Some p -> if neg then Model.Zneg p else Model.Zpos p
 
 (* Z -> decimal string, exact for any size *)
-let string_of_pos (p : positive) : string =
+let string_of_pos (p : Model.positive) : string =
   (* accumulate in base 10^9 limbs, most significant bit first *)
-  let rec bits p acc = match p with XH -> 1 :: acc | XO q -> bits q (0 :: acc) | XI q -> bits q (1 :: acc) in
+  let rec bits p acc = match p with Model.XH -> 1 :: acc | Model.XO q -> bits q (0 :: acc) | Model.XI q -> bits q (1 :: acc) in
   let bl = bits p [] in
   let limbs = ref [| 0 |] in
   let base = 1_000_000_000 in
@@ -71,9 +70,9 @@ let string_of_pos (p : positive) : string =
   Buffer.contents buf
 
 let string_of_z = function
-  | Z0 -> "0"
-  | Zpos p -> string_of_pos p
-  | Zneg p -> "-" ^ string_of_pos p
+  | Model.Z0 -> "0"
+  | Model.Zpos p -> string_of_pos p
+  | Model.Zneg p -> "-" ^ string_of_pos p
 
 let runner = Dispatch.runner
 
